@@ -259,6 +259,19 @@ func c10SubQuorums(r *Rng, sorted []sharing.ID) [][]sharing.ID {
 	add(without(0))
 	add(without(n - 1))
 	add(without(1 + r.IntN(n-2)))
+	// neighbours: sub-quorums of equal size that differ in exactly one member (the largest, the
+	// smallest, a random one) must still be separated; sizes n/2 and max(n-3, 2)
+	for _, k := range []int{n / 2, max(n-3, 2)} {
+		base := r.Perm(n)
+		in, rest := slices.Clone(base[:k]), base[k:]
+		sort.Ints(in)
+		add(slices.Clone(in))
+		for _, pos := range []int{k - 1, 0, r.IntN(k)} {
+			v := slices.Clone(in)
+			v[pos] = rest[r.IntN(len(rest))]
+			add(v)
+		}
+	}
 	return out
 }
 
@@ -388,9 +401,24 @@ func runC10(c *Ctx) {
 		c10Przs(c, "F"+hexNat(fieldOrder(fK256)), all, fK256, scalarHex)
 		c10Przs(c, "F"+hexNat(fieldOrder(fEd25519)), all, fEd25519, scalarHex)
 		c10Przs(c, "F"+hexNat(fieldOrder(fBLS)), all, fBLS, scalarHex)
-		c10Przs(c, "k256", all, cK256, pointStr)
-		c10Przs(c, "ed25519", all, cEd25519, pointStr)
-		c10Przs(c, "bls12381g1", all, cBLSG1, pointStr)
+		// (curve points are long: above 12 parties the curve groups take the full quorum, the smallest,
+		// the largest and three random sub-quorums; the scalar fields take all of them)
+		some := all
+		if len(ids) > 12 {
+			some = []c10Sub{all[0], all[1], all[len(all)-1]}
+			for _, j := range r.Perm(len(all) - 3)[:3] {
+				some = append(some, all[2+j])
+			}
+			for _, sub := range all[1:] {
+				if len(sub.q) == len(ids)-1 {
+					some = append(some, sub)
+					break
+				}
+			}
+		}
+		c10Przs(c, "k256", some, cK256, pointStr)
+		c10Przs(c, "ed25519", some, cEd25519, pointStr)
+		c10Przs(c, "bls12381g1", some, cBLSG1, pointStr)
 
 		// the parent contexts are unchanged by everything derived from them
 		after := make([]string, len(s.sorted))
@@ -403,6 +431,20 @@ func runC10(c *Ctx) {
 		c.Emit("setup "+desc+" "+ps, strings.Join(after, "|"))
 		c.Emit("subctx "+desc+" "+ps+" "+strings.Join(after, "|"), joinComma(entries))
 		xs = append(xs, strings.Join(after, "|"))
+		// every third quorum runs a second session with other randomness: "differs from the seeds of
+		// any other session" for the SAME parties (compared on the xsession line)
+		if k%3 == 0 {
+			if tw, err := c10Run(ids, c.Seed, stream+50, nil); err == nil && len(tw.ctxs) == len(ids) {
+				outs := make([]string, len(tw.sorted))
+				for i, id := range tw.sorted {
+					outs[i] = safely(func() string { return c10CtxOut(tw.ctxs[id], prm) })
+				}
+				xs = append(xs, strings.Join(outs, "|"))
+				c.Count("session.twin")
+			} else {
+				c.Violation("honest session setup (second run) failed ids=" + c10IDs(ids, ","))
+			}
+		}
 
 		c10Faults(c, r, s, desc, stream)
 	}
@@ -422,7 +464,8 @@ func c10Ordered(s *c10Session) []*session.Context {
 
 // c10Przs emits, for one group and every (sub)quorum, each member's zero share together with the
 // per-peer elements v(i,j) = g.Random(seed_i[j]) it is built from:
-//   przs <group> <ids> <sid> => q.q.q|id;share;peer=v&peer=v|…,…
+//
+//	przs <group> <ids> <sid> => q.q.q|id;share;peer=v&peer=v|…,…
 func c10Przs[GE algebra.GroupElement[GE]](c *Ctx, name string, all []c10Sub, g algebra.FiniteGroup[GE], render func(GE) string) {
 	entries := make([]string, 0, len(all))
 	for _, sub := range all {
@@ -706,7 +749,8 @@ func c10DescSubset(got, full string) bool {
 // c10NewContexts: session.NewContext called directly with a common seed and pairwise seeds of many
 // lengths (the constructor is public API and copies/absorbs caller-supplied byte strings), both ends
 // of a pair passing equal bytes:
-//   newctx <ids> <commonSeed> <i;j;seed,… (i<j)> <params> => id;sid;extract;peer=seed&…|…   (or err)
+//
+//	newctx <ids> <commonSeed> <i;j;seed,… (i<j)> <params> => id;sid;extract;peer=seed&…|…   (or err)
 func c10NewContexts(c *Ctx, r *Rng) {
 	cases := 24
 	if c.Thorough() {
